@@ -24,7 +24,7 @@ struct St {
 	out: Outcome,
 }
 
-fn accepted(ev: Ev) -> bool {
+pub fn accepted(ev: Ev) -> bool {
 	ev.urgent() || ev.empty() || ev.verdict() == "pass"
 }
 
@@ -156,4 +156,112 @@ pub fn debounce(sc: &EvSc, log: &[L]) -> Vec<Outcome> {
 	outs.sort();
 	outs.dedup();
 	outs
+}
+
+
+/// The clauses of the property themselves, evaluated on an observed default-schedule log
+/// (fixed throttle). Used when the observed batches are not among the outcomes of the
+/// exact model above: an implementation may legitimately close a window up to one tick
+/// late ("within a bounded delay") and may or may not take events that arrive after the
+/// window end into the batch being closed. Returns the first clause that fails.
+pub fn clauses(sc: &EvSc, log: &[L]) -> Result<(), String> {
+	const SLACK: u64 = 1;
+	let thr = sc.throttle;
+	// batches: (log position of the entry, time, ids); busy intervals: entry .. exit
+	let mut batches: Vec<(usize, u64, Vec<usize>)> = vec![];
+	let mut busy: Vec<(usize, usize, u64)> = vec![]; // (enter pos, exit pos, exit time)
+	let mut open: Option<usize> = None;
+	for (i, l) in log.iter().enumerate() {
+		match l {
+			L::BatchEnter { ids, t, .. } => {
+				batches.push((i, *t, ids.clone()));
+				open = Some(i);
+			}
+			L::BatchExit { t, .. } => {
+				if let Some(p) = open.take() {
+					busy.push((p, i, *t));
+				}
+			}
+			_ => {}
+		}
+	}
+	if let Some(p) = open {
+		busy.push((p, usize::MAX, u64::MAX));
+	}
+	// arrivals of accepted events: (id, ev, position, time)
+	let mut arr: Vec<(usize, Ev, usize, u64)> = vec![];
+	for (i, l) in log.iter().enumerate() {
+		if let L::Send { id, ev, t } = l {
+			if log.iter().any(|x| matches!(x, L::SendFailed { id: j } if j == id)) || !accepted(*ev) {
+				continue;
+			}
+			match busy.iter().find(|(a, b, _)| *a < i && i < *b) {
+				Some((_, b, bt)) => {
+					if *b != usize::MAX {
+						arr.push((*id, *ev, *b, *bt));
+					}
+				}
+				None => arr.push((*id, *ev, i, *t)),
+			}
+		}
+	}
+	let in_batch = |id: usize| batches.iter().position(|(_, _, ids)| ids.contains(&id));
+	for (bi, (pe, te, ids)) in batches.iter().enumerate() {
+		let members: Vec<&(usize, Ev, usize, u64)> = arr.iter().filter(|a| ids.contains(&a.0)).collect();
+		let Some(first) = members.iter().min_by_key(|a| (a.2, a.0)) else { continue };
+		// the worker starts collecting for this batch only once the previous handler returned
+		let prev_exit = busy.iter().filter(|b| b.1 < *pe).map(|b| b.2).max().unwrap_or(0);
+		let a0 = first.3.max(prev_exit);
+		let has_urgent = members.iter().any(|a| a.1.urgent());
+		if !has_urgent {
+			if *te < a0 + thr {
+				return Err(format!("batch {ids:?} entered at t{te}, before its window (first event received at t{a0}, throttle {thr}) had elapsed"));
+			}
+			if *te > a0 + thr + SLACK {
+				return Err(format!("batch {ids:?} entered at t{te}: more than {SLACK} tick after its window ended at t{}", a0 + thr));
+			}
+		}
+		// everything received before the batch was handed over (before the urgent event that
+		// flushed it, if one did), inside the window, is in it
+		let cutoff = members.iter().filter(|a| a.1.urgent()).map(|a| a.2).min().unwrap_or(*pe);
+		for a in &arr {
+			if a.2 < cutoff && a.2 >= first.2 && a.3.max(prev_exit) < a0 + thr && in_batch(a.0).map_or(true, |b| b > bi) {
+				return Err(format!("event #{} was received at t{} inside the window of batch {ids:?} (t{a0} + {thr}) but is not in it", a.0, a.3));
+			}
+		}
+	}
+	// an urgent event flushes at once: it is handed over the moment the worker is free, and
+	// only batches flushed by other urgent events may go before it
+	for a in arr.iter().filter(|a| a.1.urgent()) {
+		let Some(bi) = in_batch(a.0) else {
+			let last_exit = busy.iter().map(|b| b.2).max().unwrap_or(0);
+			let end_t = log.iter().rev().find_map(|l| if let L::Tick { t } = l { Some(*t) } else { None }).unwrap_or(0);
+			if busy.last().map_or(true, |b| b.1 != usize::MAX) && end_t > a.3.max(last_exit) {
+				return Err(format!("urgent event #{} received at t{} was never handed over", a.0, a.3));
+			}
+			continue;
+		};
+		let (pe, te, ids) = &batches[bi];
+		let prev_exit = busy.iter().filter(|b| b.1 < *pe).map(|b| b.2).max().unwrap_or(0);
+		if *te != a.3.max(prev_exit) {
+			return Err(format!("urgent event #{} received at t{}: its batch {ids:?} was entered at t{te}, the worker was free from t{prev_exit}", a.0, a.3));
+		}
+		for (pe2, _, ids2) in &batches[..bi] {
+			if *pe2 > a.2 && !arr.iter().any(|x| ids2.contains(&x.0) && x.1.urgent()) {
+				return Err(format!("urgent event #{} received at t{}: the batch {ids2:?} without an urgent event went before it", a.0, a.3));
+			}
+		}
+	}
+	// nothing accepted and received a full window (plus tolerance) ago may still be undelivered
+	let end_t = log.iter().rev().find_map(|l| if let L::Tick { t } = l { Some(*t) } else { None }).unwrap_or(0);
+	let still_busy = busy.last().map_or(false, |b| b.1 == usize::MAX);
+	if !still_busy {
+		let last_exit = busy.iter().map(|b| b.2).max().unwrap_or(0);
+		for a in &arr {
+			if in_batch(a.0).is_none() && end_t > a.3.max(last_exit) + thr + SLACK {
+				return Err(format!("event #{} received at t{} is still undelivered at t{end_t}", a.0, a.3));
+			}
+		}
+	}
+	Ok(())
 }
